@@ -136,7 +136,7 @@ func runC12(r *core.Run) {
 		}
 	}
 	// E2: the recorded executions must be behaviours of the specification
-	validateTiffTraces(r, ops, obs, traceLines, traceOwner)
+	validateTraces(r, "Trace_TiffScan", "Trace_TiffScan.cfg", "tiff.ScanTiffHeader", ops, obs, traceLines, traceOwner)
 	if r.Tier == "thorough" {
 		bindingSelfTestTiff(r, traceLines)
 	}
@@ -226,52 +226,6 @@ func checkTiffCase(r *core.Run, c *tiffCase, op *core.Op, o *core.Obs) {
 	}
 	if got.Next != hex.EncodeToString(op.Data[c.Off:c.Off+4]) {
 		r.Violate(ent+"position-after", "stream is not positioned at the reported header: next bytes "+got.Next, replayOf(op, o, c))
-	}
-}
-
-func validateTiffTraces(r *core.Run, ops []core.Op, obs []core.Obs, lines [][]byte, owner []int) {
-	if len(lines) == 0 {
-		r.Machinery("no trace events recorded (hooks missing?)")
-		return
-	}
-	for round := 0; round < 20 && len(lines) > 0; round++ {
-		tr, err := core.ValidateTrace("Trace_TiffScan", "Trace_TiffScan.cfg", lines, false, 20*time.Minute)
-		if err != nil {
-			r.Machinery("trace validation: %v", err)
-			tr.TLC.Cleanup()
-			return
-		}
-		r.AddTLC("Trace_TiffScan", tr.TLC)
-		tr.TLC.Cleanup()
-		if tr.Accepted {
-			r.Traces += countStarts(owner)
-			return
-		}
-		// rejected: first unmatched line tr.Matched (0-based index)
-		idx := tr.Matched
-		if idx >= len(lines) {
-			idx = len(lines) - 1
-		}
-		oi := owner[idx]
-		what := fmt.Sprintf("recorded execution is not a behaviour of the specification: event %s not accepted", string(lines[idx]))
-		if tr.InvViol != "" {
-			what = "trace invariant " + tr.InvViol + " violated at event " + string(lines[idx])
-		}
-		var evName struct {
-			E string `json:"e"`
-		}
-		json.Unmarshal(lines[idx], &evName)
-		r.Violate("tiff.ScanTiffHeader:trace-rejected@"+evName.E, what, replayOf(&ops[oi], &obs[oi], map[string]interface{}{"trace": rawLines(lines, owner, oi)}))
-		// drop the offending run and validate the rest, so that one rejection does not hide the remainder
-		lo, hi := idx, idx
-		for lo > 0 && owner[lo-1] == oi {
-			lo--
-		}
-		for hi < len(lines) && owner[hi] == oi {
-			hi++
-		}
-		r.Traces += countStarts(owner[:lo])
-		lines, owner = lines[hi:], owner[hi:]
 	}
 }
 
